@@ -394,9 +394,12 @@ def run_check(prop, tier, seed, jobs=16, only=None, scale=1.0):
 
     # 1. builds
     targets = [t for t in mod.TARGETS if only is None or t.name in only]
+    only_cfgs = [c for c in os.environ.get("VERIF_ONLY_CFGS", "").split(",") if c]   # diagnostics only
     cfgs = []
     for t in targets:
         for c in t.cfgs.get(tier, t.cfgs["quick"]):
+            if only_cfgs and c not in only_cfgs:
+                continue
             if c not in cfgs:
                 cfgs.append(c)
     unsupported_cfgs = {}
@@ -422,7 +425,7 @@ def run_check(prop, tier, seed, jobs=16, only=None, scale=1.0):
     k = 0
     for t in targets:
         for c in t.cfgs.get(tier, t.cfgs["quick"]):
-            if c in unsupported_cfgs:
+            if c in unsupported_cfgs or (only_cfgs and c not in only_cfgs):
                 continue
             n = max(1, int(t.examples[tier] * scale))
             pj = t.job_size[tier] if t.job_size else per_job
